@@ -1,8 +1,11 @@
 """C03 -- placement only moves movable cells; everything else is untouched.
 PROVED (coq/Properties_C03.v over coq/Api.v): the three export functions -- the only code through which a stage writes
 to the Circuit -- keep the frame for ALL internal vectors, hence any sequence of exports cut anywhere; the same through
-the modelled control flow of the three entry points for every oracle and outcome; global export keeps orientations;
-frame_okb decides the specification.
+the modelled control flow of the three entry points for every oracle and outcome (true by the shape of the stage model,
+whose stages can only export: it says nothing about the real algorithms); global export keeps orientations;
+frame_okb decides the specification.  frame_ok excludes hasCellSizeUpdate_, hasNetUpdate_ and isInUse_ explicitly.
+TRANSLATOR-DERIVED TABLE + RULE: tools/circuit_access.py lists the uses of a mutable Circuit it recognises in clang's AST,
+c03_algorithms_write_only_through_exports evaluates the rule on that table; escapes of other forms are not seen.
 Tie: (1) the three real export functions (GlobalPlacer::exportPlacement, Legalizer::exportPlacement,
 DetailedPlacement::exportPlacement, reached with #define private public) are run on random internal vectors and compared
 EXACTLY with the extracted models; (2) VALIDATED, not proved: frame_okb / orient_keptb are evaluated on the real Circuit
@@ -34,7 +37,7 @@ DEAD_WRITERS = ("NetModel::exportPlacementX", "NetModel::exportPlacementY", "Inc
 
 
 def regenerate_access():
-    """route-1 translator: table of every use of a mutable Circuit in the algorithms, before the proof build"""
+    """route-1 translator: table of the uses of a mutable Circuit that the translator recognises in the algorithms, before the proof build"""
     try:
         uses, nfun, nsrc = circuit_access.translate(common.REPO)
         circuit_access.write_gen(GEN, circuit_access.coq_text(uses, nfun, nsrc))
@@ -213,6 +216,11 @@ def run(ctx):
         fr += common.harness_gen(harness, ["fr", s, nfr // len(seeds)])
     mism, ofail_ex, crashed_ex, nontriv_ex, kinds = run_ex(ctx, harness, driver, ex)
     ofail_fr, crashed_fr, nontriv_fr, dist = run_fr(ctx, harness, driver, fr)
+    # stage-run cases without an outcome, by cause (each is run again alone to read its assertion text); a cause that is not one of the KNOWN
+    # out-of-domain assertions (checks/c10.py KNOWN_OUT_OF_DOMAIN_ASSERTS) is reported as broken correspondence below
+    from checks import c10 as _c10
+    fr_causes, fr_known, fr_unknown = _c10.no_outcome_causes(
+        harness, crashed_fr, has_outcome=lambda o: " R " in o and not any(t in o for t in ("SIGNAL", "THROW-OUTER", "DIED")))
     for l, why, before, after in ofail_ex[:2]:
         ctx.violation("export function of /repo violates C03: " + why, {"case": l, "format": EX_FORMAT, "why": why, "circuit_before": before, "circuit_after": after})
     for l, why in ofail_fr[:3]:
@@ -239,6 +247,11 @@ def run(ctx):
                               found_input=False)
             else:
                 ctx.violation("proof obligations of Properties_C03.v do not check", {"broken": "Properties_C03.v", "detail": proof}, found_input=False)
+        if fr_unknown:
+            ctx.violation("%d of %d stage-run cases ended without an outcome (abort / crash inside a placement call) for a cause that is NOT one of the known "
+                          "out-of-domain assertions (%s); first cause: %s" % (len(fr_unknown), len(fr), "; ".join(_c10.KNOWN_OUT_OF_DOMAIN_ASSERTS), fr_unknown[0][1]),
+                          {"broken": "harness runs (stage runs): a case without outcome gives no before/after pair for the frame check (crash freedom itself is property C07)",
+                           "first": {"case": fr_unknown[0][0], "format": FR_FORMAT, "cause": fr_unknown[0][1]}, "causes": fr_causes}, found_input=False)
         if len(crashed_fr) * 20 > max(1, len(fr)):
             ctx.violation("no outcome (abort/crash inside a placement call) for %d of %d stage-run cases: the dynamic frame check cannot be established"
                           % (len(crashed_fr), len(fr)), {"broken": "harness runs (stage runs)", "first": {"case": crashed_fr[0][0], "output": crashed_fr[0][1]}}, found_input=False)
@@ -261,6 +274,11 @@ def run(ctx):
                         "parameter sets, 12% parameter sets at the boundary of what check() accepts (nbPasses 0, maxNbSteps 1, windows 1, ...), 20% library-default parameters (hundreds of callbacks), efforts 1-9; every callback state and the final state compared with the state before the call; "
                         "non-trivial = a cell moved and the circuit has a fixed cell; distinct = distinct case lines",
                 "no_outcome_stage_cases": len(crashed_fr),
+                "no_outcome": {"cases": len(crashed_fr), "of": len(fr), "limit_fraction": 0.05, "by_cause": fr_causes,
+                               "known_out_of_domain_assertions": _c10.KNOWN_OUT_OF_DOMAIN_ASSERTS, "of_known_cause": sum(fr_known.values()),
+                               "of_unknown_cause": len(fr_unknown), "first_cases": [c[0][:300] for c in crashed_fr[:3]],
+                               "rule": "every stage-run case without an outcome is run again alone to read its assertion text; a cause outside the known "
+                                       "out-of-domain assertions is reported as broken correspondence; more than limit_fraction of the cases without outcome fails the run"},
                 "static_access_table": {"uses": len(uses or []), "function_definitions_scanned": nfun,
                                         "by_kind": {k: sum(1 for u in (uses or []) if u[1] == k) for k in sorted(set(u[1] for u in (uses or [])))},
                                         "writers": sorted(set("%s -> %s" % (u[0], u[2]) for u in (uses or []) if u[1] == "UWrite")),
@@ -269,7 +287,9 @@ def run(ctx):
                 "model_vs_impl_differences": len(mism), "impl_outputs_violating_statement": len(ofail_ex) + len(ofail_fr)})
     return ctx.finish(LEVEL, cov, ["export models tied to the three export functions by exact comparison on the cases of this run",
                                    "frame of whole stage runs: validated per run with the proved checker, not proved for the algorithms",
-                                   "stage runs that end in abort()/assert (degenerate circuits, C07's subject) give no before/after pair and are counted in no_outcome_stage_cases"])
+                                   "stage runs that end in abort()/assert (degenerate circuits, C07's subject) give no before/after pair and are counted in no_outcome_stage_cases (tolerated up to 5 % of the stage-run cases; a SIGSEGV is not separated from the known assert)",
+                                   "static closure = translator-derived table + rule: the analysis (python over clang's AST) is trusted, unrecognised forms of access are not seen",
+                                   "net weights are compared as llround(2x); exception kinds EInternal / EExport / EUpdating are not exercised dynamically"])
 
 
 def replay(ctx, path):
